@@ -105,10 +105,14 @@ def switch_channels(run: core.Run, pool: core.Pool, drv: core.Driver, sets: list
                 if bad and hyp:
                     run.broken_tie(f"a real graph that meets the hypotheses of {thm} contradicts it ({phase}: {w['verdict']})",
                                    {"channel": "decompsw.validate", "rs": sets[i]["rs"], "routine": r, "verdict": w})
+                    run.violation(f"front:{key}_changes_behaviour", f"routine {r}: the real graph after the {phase} pass does not behave like the real graph before it (the theorem's hypotheses hold: the pass no longer is the modelled one): {w['verdict']} {w.get('why', '')} after test outcomes {w.get('path')}",
+                                  {"rs": sets[i]["rs"], "routine": r, "verdict": w})
                 elif bad:
                     # COUNTED only (like front:build_branches_changes_behaviour): later passes / the writer may compensate; the final
                     # text is judged by C02's validation as before.  First examples kept in SW_EXAMPLES.
                     cnt[f"front:{key}_changes_behaviour"] += 1
+                    run.violation(f"front:{key}_changes_behaviour", f"routine {r}: the real graph after the switch pass ({phase}) does not behave like the real graph before it: {w['verdict']} {w.get('why', '')} after test outcomes {w.get('path')}",
+                                  {"rs": sets[i]["rs"], "routine": r, "verdict": w})
                     if len(SW_EXAMPLES) < 6:
                         SW_EXAMPLES.append({"phase": phase, "rs": sets[i]["rs"], "routine": r, "verdict": w,
                                             "before": real[i]["ib" if phase != "group" else "sc"][r],
